@@ -82,6 +82,7 @@ class World:
 
     def __init__(self, tape: Tape, worker: str = "asyncio") -> None:
         self.handlers: Dict[int, list] = {}
+        self.alpn: Optional[str] = None  # "h2" | "http/1.1" | "none" -> TLS stub in front of TCPServer
         self.reader_pushes_pending = 0
         self.reader_pushes_cancelled = 0
         self.reader_push_blocked_at_trigger = 0
@@ -128,6 +129,74 @@ class World:
         hc_ws_stream.time = wall
         self._probe_handlers()
         self._probe_reader_push()
+        self._tls_stub()
+
+    def _tls_stub(self) -> None:
+        """TLS/ALPN stub at the TCPServer seam (C13 only): the record layer is not simulated, the
+        server only sees an ssl object reporting `self.alpn` as the negotiated protocol."""
+        world = self
+        if self.worker == "asyncio":
+            import hypercorn.asyncio.run as run_mod
+            import hypercorn.asyncio.tcp_server as tcp_mod
+
+            real = tcp_mod.TCPServer
+
+            class _SSLObject:
+                def selected_alpn_protocol(self_) -> Optional[str]:
+                    return None if world.alpn == "none" else world.alpn
+
+            class _WriterProxy:
+                def __init__(self_, writer: Any) -> None:
+                    self_._writer = writer
+
+                def get_extra_info(self_, name: str, default: Any = None) -> Any:
+                    if name == "ssl_object":
+                        return _SSLObject()
+                    return self_._writer.get_extra_info(name, default)
+
+                def __getattr__(self_, name: str) -> Any:
+                    return getattr(self_._writer, name)
+
+            def factory(app: Any, loop: Any, config: Any, context: Any, state: Any, reader: Any, writer: Any) -> Any:
+                if world.alpn is not None:
+                    writer = _WriterProxy(writer)
+                return real(app, loop, config, context, state, reader, writer)
+
+            run_mod.TCPServer = factory
+        else:
+            import hypercorn.trio.run as run_mod
+            import hypercorn.trio.tcp_server as tcp_mod
+
+            real = tcp_mod.TCPServer
+
+            class _TLSStream:
+                def __init__(self_, stream: Any) -> None:
+                    self_.transport_stream = stream
+
+                async def do_handshake(self_) -> None:
+                    return None
+
+                def selected_alpn_protocol(self_) -> Optional[str]:
+                    return None if world.alpn == "none" else world.alpn
+
+                async def send_all(self_, data: bytes) -> None:
+                    await self_.transport_stream.send_all(data)
+
+                async def receive_some(self_, max_bytes: Optional[int] = None) -> bytes:
+                    return await self_.transport_stream.receive_some(max_bytes)
+
+                async def send_eof(self_) -> None:
+                    await self_.transport_stream.send_eof()
+
+                async def aclose(self_) -> None:
+                    await self_.transport_stream.aclose()
+
+            def factory(app: Any, config: Any, context: Any, state: Any, stream: Any) -> Any:
+                if world.alpn is not None:
+                    stream = _TLSStream(stream)
+                return real(app, config, context, state, stream)
+
+            run_mod.TCPServer = factory
 
     def _probe_reader_push(self) -> None:
         """Observation only: count StreamBuffer.push calls made from the connection's reader task
